@@ -169,10 +169,16 @@ Next == Validate \/ MkTreeAndHeader \/ SubmitLevel \/ GatherAndRewriteLevelHeade
 \* selection of up to three of the first input's fields (a selection may be in any order, contiguous in the file or not) and
 \* every ordered triple of the second's
 OrderedLists(S, n) == {q \in UNION {[1..k -> S] : k \in 1..n} : \A i, j \in DOMAIN q : i # j => q[i] # q[j]}
-VarChoices1 == IF Len(F1) >= 4 THEN {None} \cup OrderedLists(Rng(F1), 3)
-               ELSE {None, <<F1[1]>>, <<F1[Len(F1)], F1[1]>>, <<F1[1], "zz">>, <<"zz">>}
-VarChoices2 == IF Len(F2) >= 4 THEN {None} \cup {q \in OrderedLists(Rng(F2), 3) : Len(q) = 3}
-               ELSE {None, <<F2[Len(F2)]>>, <<F2[1], F2[Len(F2)]>>, <<"zz", F2[Len(F2)]>>, <<F1[1]>>}
+\* FOREIGN names: a list for one input may name fields that only the OTHER input has (one wish list given for both
+\* inputs); such a name selects nothing from the input it is asked of and must not keep the other input's field out
+Only1 == SelectSeq(F1, LAMBDA v : v \notin Rng(F2))
+Only2 == SelectSeq(F2, LAMBDA v : v \notin Rng(F1))
+Foreign1 == IF Only2 = <<>> THEN {} ELSE {<<F1[1], Only2[Len(Only2)]>>, <<Only2[1], F1[Len(F1)]>>, <<F1[1], Only2[1], "zz">>}
+Foreign2 == IF Only1 = <<>> THEN {} ELSE {<<Only1[1], F2[Len(F2)]>>, <<F2[1], F2[Len(F2)], Only1[Len(Only1)]>>}
+VarChoices1 == IF Len(F1) >= 4 THEN {None} \cup OrderedLists(Rng(F1), 3) \cup Foreign1
+               ELSE {None, <<F1[1]>>, <<F1[Len(F1)], F1[1]>>, <<F1[1], "zz">>, <<"zz">>} \cup Foreign1
+VarChoices2 == IF Len(F2) >= 4 THEN {None} \cup {q \in OrderedLists(Rng(F2), 3) : Len(q) = 3} \cup Foreign2
+               ELSE {None, <<F2[Len(F2)]>>, <<F2[1], F2[Len(F2)]>>, <<"zz", F2[Len(F2)]>>, <<F1[1]>>} \cup Foreign2
 
 ShiftBox(P, l, b) ==
   [P EXCEPT !.lev[l].idx[b] = 90 + b,
